@@ -19,8 +19,10 @@ PLAN = {
     "C11": {"drivers": ["escape-words", "escape-sweep"], "models": []},
     "C12": {"drivers": ["front:cli"], "models": []},
     "C13": {"drivers": ["thresholds"], "models": []},
+    "C14": {"drivers": ["front:py"], "models": []},
     "C15": {"drivers": ["color"], "models": []},
     "C16": {"drivers": ["small", "stages"], "models": []},
+    "C17": {"drivers": ["front:wasm"], "models": []},
 }
 
 ASSUME = [
